@@ -29,8 +29,18 @@ Guards against false alarms (latitude the statement leaves):
     top level of a plain-string attribute (there the flattener quotes its "&", a documented
     consequence of "everything is quoted"); slot names are unique per tree (slotData is never
     popped for plain tags, which is outside C28).
-  * raw-text element names (script, style, textarea, title ...) are not generated: their content
-    model is decided by HTML tree construction, not by the tokenizer.
+  * elements named script, style, textarea, title, xmp, iframe, noembed, noframes, noscript, plaintext,
+    svg, math ARE generated (mostly with hostile text children: </script>, </style>, <!--, ]]>, <b>,
+    '&', 'a < b && c' ...).  For the flattener and for XML they are ordinary elements, so the XML
+    oracle applies unchanged and is the one that decides on any unescaped '<' or '&' in their text.
+    The HTML oracle is deliberately restricted to the same XML-visible structure for these names: the
+    tokenizer stays in the data state (html5tok has no RAWTEXT/RCDATA/script-data/PLAINTEXT states and
+    no foreign-content mode), because HTML's own content models would make child *tags* of such an
+    element, or anything after <plaintext>, differ from the tree by design.  This loses nothing for
+    text-only children: if the data-state token stream equals (start, text, end), the raw bytes
+    between contain no '</' + letter at all, so the RAWTEXT/RCDATA "appropriate end tag" rule cannot
+    fire early either; what HTML would additionally do (not decode '&lt;' inside <script>) alters
+    the script's text, not the document structure.
 
 Large-node family (added after the seeded regression C28-cdata-sliced-escape was missed): the random
 trees never exceed a few hundred bytes per string, so an implementation that escapes or writes big
@@ -61,20 +71,28 @@ ASSUMPTIONS = [
     "(WHATWG 13.2.5 tokenizer, data-state content only, self-tested on hand-written vectors)",
     "bytes are viewed 1:1 as ISO-8859-1 for both parsers so that arbitrary byte strings stay parseable; "
     "character-set correctness is not part of C28",
-    "HTML tree construction (implied end tags, raw-text elements, foster parenting) is not modelled: "
-    "the HTML oracle compares token streams",
+    "HTML tree construction (implied end tags, raw-text / RCDATA / script-data / PLAINTEXT content models, foreign "
+    "content, foster parenting) is not modelled: the HTML oracle compares data-state token streams; for elements "
+    "named script/style/textarea/... the XML oracle decides on unescaped markup in their text",
 ]
 SHARDS = {"quick": 4, "thorough": 16}
 FLOORS = {"xml_compared": 20000, "html_compared": 20000, "hostile_strings": 200000, "attr_markup_reparsed": 5000,
           "deferred_fired_late": 5000, "renderers_called": 500, "comments": 10000, "cdata_sections": 1000,
           # large-node family (a node longer than 64 KiB with a hostile sequence cut by a buffer-size multiple)
+          "rawtext_named_elements": 15000, "rawtext_hostile_text_children": 10000,
           "large_trees": 300, "large_straddling_cdata": 40, "large_straddling_comment": 40, "large_straddling_text": 40,
           "large_straddling_attr": 40, "large_wrapped": 20, "large_bytes": 20, "large_other_buffer_sizes": 5}
 READY = True
 
 TAGS = ["div", "p", "span", "a", "b", "i", "ul", "li", "table", "td", "h1", "em", "x-custom", "svg:g",
         "ns.el", "t_1", "br", "img", "hr", "input", "meta", "link", "DIV", "Br"]
-BYTES_TAGS = [b"div", b"p", b"br", b"q"]
+# names with a special content model in HTML (raw text, escapable raw text, script data, PLAINTEXT, foreign content);
+# for the flattener and for XML they are ordinary elements and their text must be escaped like any other
+RAW_NAMES = ["script", "style", "textarea", "title", "xmp", "iframe", "noembed", "noframes", "noscript", "plaintext", "svg", "math"]
+TAGS = TAGS + RAW_NAMES + ["script", "style", "STYLE"]
+BYTES_TAGS = [b"div", b"p", b"br", b"q", b"script", b"style"]
+RAW_FOCUS = ["</script>", "</style>", "</textarea>", "</title>", "</SCRIPT >", "</script/", "</style\n>", "<!--", "-->", "]]>", "<b>",
+             "&amp;", "&lt;/script&gt;", "<script>", "<", "&", "if (a < b && c > d)", "</", "<img src=x onerror=alert(1)>", "<![CDATA["]
 ATTRS = ["class", "id", "href", "title", "data-x", "aria-label", "xlink:href", "on.x", "v_1", "Style", "alt"]
 BYTES_ATTRS = [b"lang", b"rel"]
 HOSTILE = ["<", ">", "&", '"', "'", "--", "-->", "--!>", "<!--", "]]>", "]]", "->", "-", "<!-", "</b>", "</p>",
@@ -111,6 +129,8 @@ class Gen:
         self.nrender = 0
         self.hostile = 0
         self.reusable = 0  # > 0 while generating a value that may be flattened more than once
+        self.rawtext = 0
+        self.rawtext_hostile = 0
 
     def seq_kind(self):
         return self.r.choice(["list", "tuple"] if self.reusable else ["list", "tuple", "gen"])
@@ -206,6 +226,22 @@ class Gen:
                 fills.append((sname, val))
                 myslots.append((sname, isstr))
         attrs = self.attrs(depth, myslots, elem)
+        if (name if isinstance(name, str) else name.decode("ascii")).lower() in RAW_NAMES:
+            # mostly character data, as such elements have in practice, full of what would end them or open markup
+            self.rawtext += 1
+            children = []
+            for _ in range(r.choice([1, 1, 2, 3])):
+                x = r.random()
+                if x < 0.7 or depth <= 0:
+                    t = self.string(focus=RAW_FOCUS)
+                    if (b"<" in t or b"&" in t) if isinstance(t, bytes) else ("<" in t or "&" in t):
+                        self.rawtext_hostile += 1
+                    children.append(("text", t))
+                elif x < 0.8:
+                    children.append(("deferred", ("text", self.string(focus=RAW_FOCUS)), r.random() < 0.5))
+                else:
+                    children.append(self.node(depth - 1, myslots, elem))
+            return ("tag", name, attrs, children, fills)
         nchild = 0 if depth <= 0 else r.choice([0, 1, 1, 2, 2, 3, 4])
         children = [self.node(depth - 1, myslots, elem) for _ in range(nchild)]
         return ("tag", name, attrs, children, fills)
@@ -701,6 +737,8 @@ def make_spec(ctx, i):
 
 def run_case(ctx, i, report=True):
     spec, rng, g = make_spec(ctx, i)
+    ctx.count("rawtext_named_elements", g.rawtext)
+    ctx.count("rawtext_hostile_text_children", g.rawtext_hostile)
     check_spec(ctx, spec, rng, {"case": i, "spec": repr(spec)[:3000]}, g.hostile, sample=i < 3)
 
 
